@@ -910,7 +910,8 @@ func init() {
 		Technique: "route rules (who-calls / ordering / argument provenance) on Server.Publish/Subscribe/Unsubscribe and the inline gathering sites",
 		Explanation: "(a) inline subscriptions are gathered at every gather site from the same node as client subscriptions, including the '#' child of the terminal node (parent-level match) — C01.a over the inline collector; " +
 			"(b) Server.Publish injects a PUBLISH through InjectPacket → processPacket → processPublish with the inline client, which publishToSubscribers hands to every inline handler and every client route in one pass; the requested QoS is carried in the packet and clamped per subscription in publishToClient; " +
-			"(c) Server.Subscribe registers the subscription before replaying retained messages to the handler; Server.Unsubscribe removes only the given identifier and trims the node only when no inline subscription is left.",
+			"(c) Server.Subscribe registers the subscription before replaying retained messages to the handler; Server.Unsubscribe removes only the given identifier and trims the node only when no inline subscription is left; InlineSubscribe (like Topics.Subscribe) stores the given subscription on every path, so a repeated Subscribe replaces the handler; " +
+			"(e) trim never unlinks a node that still holds inline subscriptions.",
 		NotDecided: []string{"matcher truth table (C01)", "ordering between retained replay and concurrent live messages"},
 		Run:        runC40,
 	})
@@ -1000,6 +1001,17 @@ func runC40(c *Ctx) {
 			c.underFact("C40.c subscribe-order", "(*mqtt.Server).Subscribe rejects a nil handler", is, textEq("handler == nil"), false, "")
 		}
 	}
+	// re-subscribing replaces: like a client's SUBSCRIBE, InlineSubscribe stores the given subscription (handler
+	// included) on every path, whether or not the identifier existed; and trim keeps nodes with inline subscriptions
+	if f := c.fn("mqtt", "(*TopicsIndex).InlineSubscribe"); f != nil {
+		c.noPath("C40.c subscribe-order", "(*mqtt.TopicsIndex).InlineSubscribe stores the subscription on every path (a repeated Subscribe replaces handler and options)", f, nil, anyReturn,
+			isNamed("(*mqtt.InlineSubscriptions).Add"), nil, "Server.Subscribe reports success and replays retained messages to the new handler, but live messages keep going to the old one")
+	}
+	if f := c.fn("mqtt", "(*TopicsIndex).Subscribe"); f != nil {
+		c.noPath("C40.c subscribe-order", "(*mqtt.TopicsIndex).Subscribe stores the subscription on every path (the behaviour the inline API mirrors)", f, nil, anyReturn,
+			isNamed("(*mqtt.Subscriptions).Add", "(*mqtt.SharedSubscriptions).Add"), nil, "")
+	}
+	trimKeepsSubscriptions(c, "C40.e trim-keeps-inline-nodes", 5)
 	if f := c.fn("mqtt", "(*Server).Unsubscribe"); f != nil {
 		iu := c.call1(f, "(*mqtt.TopicsIndex).InlineUnsubscribe")
 		c.ob("C40.c subscribe-order", "(*mqtt.Server).Unsubscribe removes the given identifier under the given filter", c.pos(f.Pos()), iu != nil && describe(iu.Common().Args[1]) == "subscriptionId" && describe(iu.Common().Args[2]) == "filter", "")
